@@ -2955,6 +2955,9 @@ namespace bloch::runtime {
                 } else if (target.type == Value::Type::ClassRef && target.classRef) {
                     staticCls = target.classRef;
                     method = findMethod(staticCls, member->member, &args);
+                    // super.m(...) runs the base version on the current object
+                    if (viaSuper && method && !method->isStatic)
+                        receiver = currentThisObject();
                 } else if (target.type == Value::Type::ClassRef && !target.classRef &&
                            !target.className.empty()) {
                     // Static call on a generic template (e.g., List.of(x)) — attempt to
